@@ -281,4 +281,27 @@ example : encodeEntryPayload (.cas [] none []) = [0x1a, 0x00] := by
   simp [encodeEntryPayload, writeOpToProto, encWriteCommand, encLenDelim, encKey, encCas, encBytesField,
     encOptBytesField, encVarint_small]
 
+/-! ## corollaries added in the continuation session (DESIGN.md 12.10) -/
+theorem asCommand_injective : ∀ a b : WriteOp, asCommand a = asCommand b → a = b := by
+  intro a b h
+  cases a <;> cases b <;> simp_all [asCommand]
+
+/-- No two different writes share a log encoding: the payload bytes determine the operation (TTL `some 0` excluded,
+    because it is by convention the same write as `none`, see `literal_identity_statement_false`). -/
+theorem encode_injective (a b : WriteOp) (ha : a.Sized) (hb : b.Sized)
+    (hza : ttlOf a ≠ some 0) (hzb : ttlOf b ≠ some 0)
+    (h : encodeEntryPayload a = encodeEntryPayload b) : a = b := by
+  have ea := write_roundtrip_exact a ha hza
+  have eb := write_roundtrip_exact b hb hzb
+  rw [h, eb] at ea
+  exact (asCommand_injective _ _ (Option.some.inj ea)).symm
+
+/-- With the TTL convention: equal encodings always mean equal *effects* on the state machine. -/
+theorem encode_determines_effect (a b : WriteOp) (ha : a.Sized) (hb : b.Sized)
+    (h : encodeEntryPayload a = encodeEntryPayload b) : expectedCommand a = expectedCommand b := by
+  have ea := write_roundtrip a ha
+  have eb := write_roundtrip b hb
+  rw [h, eb] at ea
+  exact (Option.some.inj ea).symm
+
 end DEngine.C37
